@@ -47,7 +47,7 @@ theorem mem_findable_of_shard {c : Cache σ} {i : Nat} {s : Shard σ} (hs : c.sh
 
 /-- What an insert or an evict-all evicts was findable before the step. -/
 theorem evict_leaves_findable (L : Lawful P Ok) {cfg : Cfg} {c : Cache σ} (hc : CacheInv P Ok cfg c) (op : Op)
-    (hop : match op with | .ins .. => True | .evictAll => True | _ => False)
+    (hop : match op with | .ins .. => True | .evictAll => True | .flush => True | _ => False)
     (x : Rec) (hx : (Reason.evict, x) ∈ (Cache.step P cfg c op).2.leaves) : x ∈ c.findable := by
   cases op with
   | ins key ver w hint phantom loc age =>
@@ -97,6 +97,19 @@ theorem evict_leaves_findable (L : Lawful P Ok) {cfg : Cfg} {c : Cache σ} (hc :
     simp only [List.nil_append] at hvs
     subst hvx
     exact mem_findable_of_shard hs (hsub v (by rw [← hvs]; exact hv))
+  | flush =>
+    simp only [Cache.step] at hx
+    obtain ⟨j, s, hs, hxs⟩ := mem_leaves_mapShards _ c.shards 0 _ hx
+    simp only at hxs
+    have es := evict_spec L 0 s (hc.shard j s hs)
+    generalize Shard.evict P s 0 = ev at es hxs
+    obtain ⟨s1, vs, pk⟩ := ev
+    simp only [List.mem_map, Prod.mk.injEq] at hxs
+    obtain ⟨v, hv, _, hvx⟩ := hxs
+    obtain ⟨vs', hvs, _, _, _, _, hsub, _⟩ := es.victims
+    simp only [List.nil_append] at hvs
+    subst hvx
+    exact mem_findable_of_shard hs (hsub v (by rw [← hvs]; exact hv))
   | get _ => exact absurd hop id
   | touch _ => exact absurd hop id
   | contains _ => exact absurd hop id
@@ -105,7 +118,6 @@ theorem evict_leaves_findable (L : Lawful P Ok) {cfg : Cfg} {c : Cache σ} (hc :
   | drop _ => exact absurd hop id
   | clear => exact absurd hop id
   | resize _ => exact absurd hop id
-  | flush => exact absurd hop id
 
 
 /-- memory operations that neither write key `k` nor are outside what the hybrid layer issues -/
@@ -114,7 +126,6 @@ def quietFor (k : Nat) : Op → Prop
   | .remove key => key ≠ k
   | .clear => False
   | .resize _ => False
-  | .flush => False
   | _ => True
 
 theorem regStep_quietFor {k : Nat} {op : Op} (h : quietFor k op) (cur : Option Rec) (out : Out) :
@@ -170,13 +181,13 @@ theorem evicted_is_piped (L : Lawful P Ok) {cfg : Cfg} (hn : 0 < cfg.nshards) {c
       simp only at hrc
       rw [hph] at hrc; exact absurd hrc.2.1 (by decide)
     | evictAll => simp only at hrc; rw [← hrc]; exact he
+    | flush => simp only at hrc; rw [← hrc]; exact he
     | get _ => exact absurd hrc id
     | touch _ => exact absurd hrc id
     | contains _ => exact absurd hrc id
     | clone _ => exact absurd hrc id
     | clear => exact absurd hq id
     | resize _ => exact absurd hq id
-    | flush => exact absurd hq id
 
 /-- **What reaches the pipe was the lookup of its key** (for everything but handle drops). -/
 theorem piped_is_lookup (L : Lawful P Ok) {cfg : Cfg} {c : Cache σ} (hc : CacheInv P Ok cfg c) (k : Nat) (op : Op)
@@ -187,6 +198,7 @@ theorem piped_is_lookup (L : Lawful P Ok) {cfg : Cfg} {c : Cache σ} (hc : Cache
   cases op with
   | ins key ver w hint phantom loc age => exact lookup_of_findable hc (evict_leaves_findable L hc _ trivial x hx)
   | evictAll => exact lookup_of_findable hc (evict_leaves_findable L hc _ trivial x hx)
+  | flush => exact lookup_of_findable hc (evict_leaves_findable L hc _ trivial x hx)
   | remove key => simp only at hrc; exact absurd hrc.1 (by decide)
   | drop rid => exact absurd rfl (hnd rid)
   | get _ => exact absurd hrc id
@@ -195,7 +207,6 @@ theorem piped_is_lookup (L : Lawful P Ok) {cfg : Cfg} {c : Cache σ} (hc : Cache
   | clone _ => exact absurd hrc id
   | clear => exact absurd hq id
   | resize _ => exact absurd hq id
-  | flush => exact absurd hq id
 
 /-! ### the handle table -/
 
@@ -258,6 +269,9 @@ theorem held_evictAll (cfg : Cfg) (c : Cache σ) : (Cache.step P cfg c .evictAll
   simp only [Cache.step]
 
 theorem held_clear (cfg : Cfg) (c : Cache σ) : (Cache.step P cfg c .clear).1.held = c.held := by
+  simp only [Cache.step]
+
+theorem held_flush (cfg : Cfg) (c : Cache σ) : (Cache.step P cfg c .flush).1.held = c.held := by
   simp only [Cache.step]
 
 
